@@ -23,7 +23,7 @@ Print Assumptions bin_token_roundtrip.
 Theorem bin_string_table_complete : forall ts t e,
   In t ts -> entry_of t = Some e ->
   In e (collect ts) /\ nth_error (collect ts) (index_of e (collect ts)) = Some e.
-Proof. intros ts t e H1 H2. split; [| apply index_of_nth]; exact (bin_string_table_complete_lemma ts t e H1 H2). Qed.
+Proof. exact bin_string_table_complete_full. Qed.
 Print Assumptions bin_string_table_complete.
 
 (* Reading what the writer wrote recreates the modules up to the normal form [norm_module] (scale of
@@ -35,10 +35,7 @@ Theorem bin_module_roundtrip : forall ms, wf_ctx ms ->
   /\ write_ctx (map norm_module ms) = write_ctx ms
   /\ (forall fF fD fLD, p_ctx fF fD fLD (map norm_module ms) = p_ctx fF fD fLD ms)
   /\ map norm_module (map norm_module ms) = map norm_module ms.
-Proof.
-  intros ms H. split; [exact (read_write_ctx ms H)|]. split; [exact (write_ctx_norm ms)|].
-  split; [intros; apply p_ctx_norm|]. rewrite map_map. apply map_ext. exact norm_module_idem.
-Qed.
+Proof. exact bin_module_roundtrip_lemma. Qed.
 Print Assumptions bin_module_roundtrip.
 
 (* the same with the hypotheses as one computable check (run on every generated module) *)
@@ -51,10 +48,10 @@ Print Assumptions bin_module_roundtrip_checked.
    anything else, in particular not on what a previous read normalised away). *)
 Theorem bin_write_function : forall ms1 ms2,
   map norm_module ms1 = map norm_module ms2 -> write_ctx ms1 = write_ctx ms2.
-Proof. intros ms1 ms2 H. rewrite <- (write_ctx_norm ms1), <- (write_ctx_norm ms2), H. reflexivity. Qed.
+Proof. exact bin_write_function_lemma. Qed.
 Print Assumptions bin_write_function.
 
 (* non-vacuity: the hypotheses hold for a context with every item kind and operand form *)
 Theorem bin_roundtrip_nonvacuous : wf_ctx ex_ctx /\ map norm_module ex_ctx <> ex_ctx.
-Proof. split; [apply wf_ctx_b_spec; exact ex_ctx_wf | exact ex_ctx_norm_differs]. Qed.
+Proof. exact bin_roundtrip_nonvacuous_lemma. Qed.
 Print Assumptions bin_roundtrip_nonvacuous.
